@@ -86,7 +86,14 @@ class Env(object):
                 self.pos[k] = merge_pos([a, b])
         for k, v in other.defs.items():
             if k in self.defs and self.defs[k] is not v:
-                self.defs[k] = None
+                # several reaching definitions: keep all of them (a value computed on either branch)
+                a, b = self.defs[k], v
+                if a is None or b is None:
+                    self.defs[k] = None
+                else:
+                    la = a if isinstance(a, list) else [a]
+                    lb = b if isinstance(b, list) else [b]
+                    self.defs[k] = la + [x for x in lb if not any(x is y for y in la)]
             else:
                 self.defs.setdefault(k, v)
 
@@ -191,6 +198,12 @@ class FnTags(object):
         if isinstance(n, ast.Call):
             f = n.func
             if isinstance(f, ast.Name):
+                if f.id == 'getattr' and n.args:
+                    # an attribute of an object belongs to whoever owns the object (spec.kwonlydefaults of a memoised spec)
+                    out = set(self.tags(n.args[0], env))
+                    if len(n.args) > 2:
+                        out |= self.tags(n.args[2], env)
+                    return out
                 if f.id in COPIERS:
                     return set()
                 if f.id in self.summ:
@@ -205,6 +218,9 @@ class FnTags(object):
             return set()
         if isinstance(n, ast.Subscript):
             return self.elem(self.tags(n.value, env))
+        if isinstance(n, ast.Attribute):
+            # a sub-object reached through an attribute of a shared element is shared state as well
+            return set(t for t in self.tags(n.value, env) if t.startswith('sharedelem:'))
         if isinstance(n, (ast.Tuple, ast.List)):
             out = set()
             for e in n.elts:
@@ -453,7 +469,7 @@ def expand(expr, env, depth=0):
         return expr
     if isinstance(expr, ast.Name):
         d = env.lookup_def(expr.id)
-        if d is not None and d is not expr:
+        if d is not None and not isinstance(d, list) and d is not expr:
             return expand(d, env, depth + 1)
     return expr
 
@@ -462,6 +478,14 @@ def whole_names(expr, env, depth=0):
     """names that occur WHOLE in a key expression (the key itself or an element of a key tuple)"""
     expr = expand(expr, env, depth)
     out = set()
+    # a bound method's __func__ carries everything inspection reads (code, defaults, annotations): keying a memo of inspection
+    # results by it keeps every fact the value was computed from; __code__ does not (defaults live on the function object)
+    if isinstance(expr, ast.Attribute) and expr.attr == '__func__':
+        return whole_names(expr.value, env, depth + 1)
+    if isinstance(expr, ast.Call) and isinstance(expr.func, ast.Name) and expr.func.id == 'getattr' and len(expr.args) == 3 \
+            and isinstance(expr.args[1], ast.Constant) and expr.args[1].value == '__func__' \
+            and isinstance(expr.args[0], ast.Name) and isinstance(expr.args[2], ast.Name) and expr.args[0].id == expr.args[2].id:
+        return whole_names(expr.args[0], env, depth + 1)
     if isinstance(expr, ast.Name):
         out.add(expr.id)
     elif isinstance(expr, (ast.Tuple, ast.List)):
@@ -479,6 +503,11 @@ def arg_names(expr, env, ft, depth=0):
         d = env.lookup_def(expr.id)
         if d is None and expr.id in ft.unpack_sources:
             d = ft.unpack_sources[expr.id]
+        if isinstance(d, list):
+            for x in d:
+                if x is not expr:
+                    out |= arg_names(x, env, ft, depth + 1)
+            return out
         if d is not None and d is not expr:
             return arg_names(d, env, ft, depth + 1)
         return out
